@@ -796,6 +796,23 @@ impl<K, V> SmallMap<K, V> {
     }
 }
 
+#[cfg(starlark_verif)]
+impl<K, V> SmallMap<K, V> {
+    /// Verification hook: content of the private index (`None` if no index is
+    /// allocated), as the list of entry positions it stores, in bucket order.
+    pub fn verif_index(&self) -> Option<Vec<usize>> {
+        self.index.as_ref().map(|ix| ix.iter().copied().collect())
+    }
+
+    /// Verification hook: does looking up `hash` in the index find position `i`?
+    /// `None` if no index is allocated.
+    pub fn verif_index_finds(&self, hash: StarlarkHashValue, i: usize) -> Option<bool> {
+        self.index
+            .as_ref()
+            .map(|ix| ix.find(hash.promote(), |j| *j == i).is_some())
+    }
+}
+
 /// Reference to the actual entry in the map.
 pub struct OccupiedEntry<'a, K, V> {
     /// Pointer to the key in the map.
